@@ -11,8 +11,11 @@
 package main
 
 import (
+	"bytes"
 	"fmt"
+	"runtime"
 	"sort"
+	"strconv"
 	"strings"
 	"sync"
 	"time"
@@ -55,6 +58,16 @@ type actorT struct {
 	resume  chan struct{}
 	view    string
 	ret     string
+	eager   bool // released into a lock that is held: blocked inside the implementation's Lock()
+}
+
+// goid returns the id of the calling goroutine (harness-only: lock events are attributed to actors by goroutine)
+func goid() uint64 {
+	var buf [64]byte
+	n := runtime.Stack(buf[:], false)
+	f := bytes.Fields(buf[:n])
+	id, _ := strconv.ParseUint(string(f[1]), 10, 64)
+	return id
 }
 
 type eng struct {
@@ -71,6 +84,7 @@ type eng struct {
 	draining bool
 	inits    map[string]func(statedb.WriteTxn)
 	ntab0    int // number of initial tables
+	byGo     map[uint64]*actorT
 }
 
 var cur *eng
@@ -103,7 +117,7 @@ func init() {
 			return
 		}
 		e.mu.Lock()
-		a := e.current
+		a := e.byGo[goid()]
 		dr := e.draining
 		e.mu.Unlock()
 		if a == nil {
@@ -149,6 +163,7 @@ func (e *eng) Case(id string) {
 	e.byName = map[string]*actorT{}
 	e.holder = map[uint64]*actorT{}
 	e.inits = map[string]func(statedb.WriteTxn){}
+	e.byGo = map[uint64]*actorT{}
 	curMu.Lock()
 	cur = e
 	curMu.Unlock()
@@ -262,6 +277,9 @@ func (e *eng) viewOf(w statedb.WriteTxn, ntab int) (s string) {
 }
 
 func (e *eng) run(a *actorT) {
+	e.mu.Lock()
+	e.byGo[goid()] = a
+	e.mu.Unlock()
 	defer func() {
 		if r := recover(); r != nil {
 			a.ret = "panic:" + hx.PanicClass(r)
@@ -338,6 +356,63 @@ func (e *eng) enabledLocked(a *actorT) bool {
 		return e.rootHold == nil
 	}
 	return true
+}
+
+// awaited: the resource the actor's next micro-step needs ("t<seq>", "root" or "")
+func (a *actorT) awaited() string {
+	switch {
+	case strings.HasPrefix(a.point, "locking:"):
+		return fmt.Sprintf("t%d", a.seqWant)
+	case a.point == "commit-indexes" || a.point == "register-before-lock":
+		return "root"
+	}
+	return ""
+}
+
+// settleEager: actors that were forced into a held lock proceed as soon as it is free; wait for them to
+// reach their next hook point (in declaration order) and report what they did.
+func (e *eng) settleEager() string {
+	suffix := ""
+	for {
+		var next *actorT
+		e.mu.Lock()
+		for _, a := range e.actors {
+			// the lock is free, or the forced actor has already taken it (its "locked" event may arrive first)
+			if a.eager && (e.enabledLocked(a) || (strings.HasPrefix(a.point, "locking:") && e.holder[a.seqWant] == a)) {
+				next = a
+				break
+			}
+		}
+		e.mu.Unlock()
+		if next == nil {
+			return suffix
+		}
+		var p string
+		select {
+		case p = <-next.report:
+		case <-time.After(5 * time.Second):
+			next.eager = false
+			return suffix + fmt.Sprintf(" +%s:STUCK(lock is free but the forced actor does not proceed)", next.name)
+		}
+		e.mu.Lock()
+		next.eager = false
+		e.notePoint(next, p)
+		e.mu.Unlock()
+		suffix += fmt.Sprintf(" +%s:%s", next.name, p)
+	}
+}
+
+// notePoint records the hook point an actor has reached (caller holds e.mu)
+func (e *eng) notePoint(a *actorT, p string) {
+	a.point = p
+	switch p {
+	case "commit-root-locked", "register-locked":
+		e.rootHold = a
+	case "commit-root-unlocked", "register-unlocked":
+		e.rootHold = nil
+	case "done":
+		a.fin = true
+	}
 }
 
 func (e *eng) obs() string {
@@ -420,10 +495,32 @@ func (e *eng) Op(f []string, line string, out *hx.Out) {
 		e.watches = append(e.watches, ch)
 		e.mu.Unlock()
 		out.P("%s %s%s", tag, e.obs(), bad)
+	case "force":
+		// release an actor into a lock that is currently held (it blocks inside the implementation); at most
+		// one forced waiter per lock so that the wake-up order is determined
+		e.mu.Lock()
+		a := e.byName[f[1]]
+		ok := a != nil && a.started && !a.fin && !a.eager && a.awaited() != "" && !e.enabledLocked(a)
+		if ok {
+			for _, b := range e.actors {
+				if b != a && b.eager && b.awaited() == a.awaited() {
+					ok = false
+				}
+			}
+		}
+		e.mu.Unlock()
+		if !ok {
+			out.P("%s n/a %s", tag, e.obs())
+			return
+		}
+		a.eager = true
+		a.resume <- struct{}{}
+		time.Sleep(2 * time.Millisecond) // let it run into the lock (not needed for correctness)
+		out.P("%s forced:%s %s", tag, a.name, e.obs())
 	case "step":
 		e.mu.Lock()
 		a := e.byName[f[1]]
-		ok := a != nil && e.enabledLocked(a)
+		ok := a != nil && !a.eager && e.enabledLocked(a)
 		if ok {
 			e.current = a
 		}
@@ -446,15 +543,7 @@ func (e *eng) Op(f []string, line string, out *hx.Out) {
 			return
 		}
 		e.mu.Lock()
-		a.point = p
-		switch p {
-		case "commit-root-locked", "register-locked":
-			e.rootHold = a
-		case "commit-root-unlocked", "register-unlocked":
-			e.rootHold = nil
-		case "done":
-			a.fin = true
-		}
+		e.notePoint(a, p)
 		extra := ""
 		switch {
 		case (p == "commit-indexes" || p == "abort-before-unlock") && a.kind == "w":
@@ -466,7 +555,8 @@ func (e *eng) Op(f []string, line string, out *hx.Out) {
 		}
 		e.current = nil
 		e.mu.Unlock()
-		out.P("%s %s:%s %s%s", tag, a.name, p, e.obs(), extra)
+		eager := e.settleEager()
+		out.P("%s %s:%s %s%s%s", tag, a.name, p, e.obs(), extra, eager)
 	default:
 		out.P("E unknown op: %s", line)
 	}
